@@ -333,7 +333,7 @@ def extract_witness(eng, ob, extra_terms=None):
       params[name] = d.dump(v)
     except Exception as e:
       params[name] = 'dump failed: %s' % e
-  w = {'params': params, 'objects': d.objects}
+  w = {'params': params, 'objects': d.objects, 'captures': dict((k, v) for k, v in params.items() if k.startswith('g_'))}
   ch = []
   for nm, v in getattr(ob, 'choices', []) or []:
     try:
